@@ -3,12 +3,14 @@
    every history of cycle/start/stop. *)
 From Coq Require Import List Arith ZArith Bool Lia.
 Import ListNotations.
-Require Import FV.Gen.C14 FV.C14.Model FV.C14.Lemmas.
+Require Import FV.Gen.C14 FV.C14.Model FV.C14.Lemmas FV.C14.HasStates FV.C14.HasStatesLemmas.
 
 (* obligations on the facts regenerated from /repo (Gen/C14.v) *)
 Theorem C14_source_facts :
   inner_loop_is_range_maxloops = true /\ cleanup_swap_under_lock = true /\ task_pickup_under_lock = true /\
-  start_only_posts = true /\ stop_only_posts = true /\ 0 < maxloops /\ 0 < outer_rounds.
+  start_only_posts = true /\ stop_only_posts = true /\ 0 < maxloops /\ 0 < outer_rounds /\
+  hasstates_shapes = true /\ start_resets_idle_status = true /\
+  (status_idle < status_busy)%Z /\ (status_busy < status_error)%Z.
 Proof. repeat split; try reflexivity; apply Nat.ltb_lt; reflexivity. Qed.
 
 (* one cycle makes at most outer_rounds*maxloops state calls and outer_rounds cleanup calls; being a total
@@ -62,6 +64,47 @@ Proof.
   intros W ops i Q s Hn. apply stop_makes_inactive; [exact Q|apply C14_source_facts|apply RInv_reachable|exact Hn].
 Qed.
 
+(* ---- the HasStates layer (frappy/states.py): status of a module built on the state machine.
+   scode: the status code attached to each state function (@status_code), all of them busy codes or none;
+   operations start_machine / stop_machine / cycle_machine issued between cycles, any behaviour program. *)
+Definition gcodes : codes := {| c_idle := status_idle; c_busy := status_busy; c_error := status_error |}.
+
+(* the machine inside the layer is exactly the state machine of the theorems above *)
+Theorem C14_layer_runs_the_core_machine : forall scode W h o,
+  core (hstep gcodes scode start_resets_idle_status W maxloops outer_rounds h o) =
+  match o with
+  | HStart tid f kw => post (core h) (TStart tid f (Some 0) kw)
+  | HStop tid => if is_active (core h) then post (core h) (TStop tid) else core h
+  | HCycle => cycle W maxloops outer_rounds (core h)
+  end.
+Proof. intros. apply core_hstep. Qed.
+
+(* busy from the start request until the machine has finished: after every history, while a state is set or a
+   start request is pending the reported status code is a busy code *)
+Theorem C14_status_busy_while_running : forall scode W ops,
+  quiet W ->
+  (forall f c, scode f = Some c -> busyb gcodes c = true) ->
+  J gcodes (hrun gcodes scode start_resets_idle_status W maxloops outer_rounds ops).
+Proof. intros scode W ops Q Hsc. apply busy_while_running; [exact Q|exact Hsc|reflexivity]. Qed.
+
+(* ... and its final or stopped status afterwards: whenever the machine is inactive and no start is pending, the
+   reported status is the idle status (the one set by final_status, the stopped status, the error status) *)
+Theorem C14_status_final_when_inactive : forall scode W ops,
+  quiet W ->
+  K gcodes (hrun gcodes scode start_resets_idle_status W maxloops outer_rounds ops).
+Proof. intros scode W ops Q. apply inactive_status_is_final. exact Q. Qed.
+
+(* the final status of an earlier run is not inherited (repaired by ceac852): error in run 1, plain Finish in run 2 *)
+Definition hsW : world :=
+  {| w_s := fun n => if Nat.ltb n 5 then BRaise else BFinish; w_c := fun _ => CNone; w_env := fun _ => None |}.
+Example C14_status_not_inherited :
+  let h1 := hrun gcodes (fun _ => None) start_resets_idle_status hsW maxloops outer_rounds [HStart 0 0 []; HCycle] in
+  let h2 := hrun gcodes (fun _ => None) start_resets_idle_status hsW maxloops outer_rounds
+              [HStart 0 0 []; HCycle; HStart 2 0 []; HCycle] in
+  fst (st h1) = status_error /\ is_active (core h1) = false /\
+  st h2 = (status_idle, TEmpty) /\ is_active (core h2) = false.
+Proof. vm_compute. repeat split; reflexivity. Qed.
+
 (* non-vacuity: a history in which a run with a cleanup is interrupted by a restart, the cleanup continues with a
    cleanup state, and the restart is taken afterwards *)
 Definition demoW : world :=
@@ -85,3 +128,6 @@ Print Assumptions C14_last_start_wins.
 Print Assumptions C14_attrs_exact.
 Print Assumptions C14_attrs_frame.
 Print Assumptions C14_stop_inactive.
+Print Assumptions C14_layer_runs_the_core_machine.
+Print Assumptions C14_status_busy_while_running.
+Print Assumptions C14_status_final_when_inactive.
